@@ -396,25 +396,36 @@ pub fn memory_check(args: &[String], n: usize, seed: u64, long_lines: bool, many
     // warm up caches (lazily compiled regexes, one set per language met) with a large input
     // itself, so that what a cache retains is not counted as growth with input size
     let _ = measure(3 * n);
-    let (h1, l1, _) = measure(n);
-    let (h3, l3, _) = measure(3 * n);
-    let (h9, l9, q9) = measure(9 * n);
+    // bytes of live heap per added hunk over two intervals of a geometric series of input sizes
+    let slopes = |n: usize| -> (isize, isize, isize, usize, usize, usize, f64, f64, usize) {
+        let (h1, l1, _) = measure(n);
+        let (h3, l3, _) = measure(3 * n);
+        let (h9, l9, q9) = measure(9 * n);
+        (h1, h3, h9, l1, l3, l9, (h3 - h1) as f64 / (2 * n) as f64, (h9 - h3) as f64 / (6 * n) as f64, q9)
+    };
+    let (h1, h3, h9, l1, l3, l9, per_hunk_a, per_hunk_b, q9) = slopes(n);
     let growth = h9 - h1;
     let input_growth = (l9 - l1) as isize;
-    // bytes of live heap per added hunk, over both intervals: a buffer that happens to have doubled
-    // its capacity shows up in one interval only, a leak in both
-    let per_hunk_a = (h3 - h1) as f64 / (2 * n) as f64;
-    let per_hunk_b = (h9 - h3) as f64 / (6 * n) as f64;
-    let info = json!({"args": args, "long_lines": long_lines, "many_files": many_files, "wrap_shapes": wrap_shapes, "many_commits": many_commits, "hunks_small": n, "hunks_mid": 3 * n, "hunks_large": 9 * n, "input_bytes_small": l1, "input_bytes_mid": l3, "input_bytes_large": l9, "live_heap_small": h1, "live_heap_mid": h3, "live_heap_large": h9, "heap_bytes_per_added_hunk": [per_hunk_a, per_hunk_b], "quiescence_points_large": q9});
-    if growth > input_growth / 4 || per_hunk_a.min(per_hunk_b) >= 2.0 {
-        return (
-            Some(Violation::new(
-                "M-memory",
-                "M:heap-grows-with-input",
-                format!("live heap at a quiescence point after an unchanged line grows with the input: {} -> {} -> {} bytes for {} -> {} -> {} hunks ({:.1} and {:.1} bytes per added hunk; input grew by {} bytes; long lines: {}; one file per hunk: {}; wrap shapes: {}; one commit per hunk: {}; args {:?})", h1, h3, h9, n, 3 * n, 9 * n, per_hunk_a, per_hunk_b, input_growth, long_lines, many_files, wrap_shapes, many_commits, args),
-            )),
-            info,
-        );
+    let mut info = json!({"args": args, "long_lines": long_lines, "many_files": many_files, "wrap_shapes": wrap_shapes, "many_commits": many_commits, "hunks_small": n, "hunks_mid": 3 * n, "hunks_large": 9 * n, "input_bytes_small": l1, "input_bytes_mid": l3, "input_bytes_large": l9, "live_heap_small": h1, "live_heap_mid": h3, "live_heap_large": h9, "heap_bytes_per_added_hunk": [per_hunk_a, per_hunk_b], "quiescence_points_large": q9});
+    let first = per_hunk_a.min(per_hunk_b);
+    if growth > input_growth / 4 || first >= 2.0 {
+        // A buffer that doubles its capacity now and then (and stops once it fits the largest item)
+        // can show up in both intervals of one geometric series; a leak has the same slope at every
+        // scale.  Measure again at twice the sizes and ask for the same picture.
+        let (g1, g3, g9, _, _, _, a2, b2, _) = slopes(2 * n);
+        let second = a2.min(b2);
+        info["second_measurement"] = json!({"hunks": [2 * n, 6 * n, 18 * n], "live_heap": [g1, g3, g9], "heap_bytes_per_added_hunk": [a2, b2]});
+        let same_picture = second >= 2.0 && second >= first / 2.0 && second <= first * 2.0;
+        if growth > input_growth / 4 || same_picture {
+            return (
+                Some(Violation::new(
+                    "M-memory",
+                    "M:heap-grows-with-input",
+                    format!("live heap at a quiescence point after an unchanged line grows with the input: {} -> {} -> {} bytes for {} -> {} -> {} hunks ({:.1} and {:.1} bytes per added hunk; at twice the sizes {:.1} and {:.1}; input grew by {} bytes; long lines: {}; one file per hunk: {}; wrap shapes: {}; one commit per hunk: {}; args {:?})", h1, h3, h9, n, 3 * n, 9 * n, per_hunk_a, per_hunk_b, a2, b2, input_growth, long_lines, many_files, wrap_shapes, many_commits, args),
+                )),
+                info,
+            );
+        }
     }
     (None, info)
 }
